@@ -60,7 +60,9 @@ async fn run_sequence(ty: Ty, seq: &[u8]) -> Vec<(String, String)> {
     let mut viol: Vec<(String, String)> = Vec::new();
     let names: Vec<&str> = seq.iter().map(|o| OPS[*o as usize]).collect();
     let what = format!("{} socket, operations {:?}", ty.name(), names);
-    let mut sock = AnySocket::new(ty, None);
+    let mut sock = AnySocket::new_unmonitored(ty, None);
+    // a monitor is installed (and kept) so that the event paths run too
+    let _monitor = sock.monitor();
     let mut model: Vec<Endpoint> = Vec::new(); // in bind order
     let mut ever: Vec<Endpoint> = Vec::new();
     let mut clients: Vec<Client> = Vec::new();
